@@ -5,8 +5,8 @@ Model of `barter/src/statistic/summary/dataset/mod.rs` (DataSetSummary),
 
 `Decimal` is `Rat` (rounding of `/` and of overflowing `*` is not modelled, DESIGN §3).
 `Decimal::sqrt` is a *parameter* `sqrtFn : Rat → Rat` of the model: the theorems hold for every
-choice of it; the driver instantiates it with `sqrtApprox` (integer Newton iteration, 30 decimal
-places) so that the model's `std_dev` can be compared with the code's.
+choice of it; the driver instantiates it with `sqrtApprox` (integer square root, 30 decimal
+places, error bound proved) so that the model's `std_dev` can be compared with the code's.
 
 Second half of the file: the abstract specification (whole-dataset statistics), written from the
 property text — it never looks at a running state.
@@ -139,23 +139,29 @@ def specSummary (sqrtFn : Rat → Rat) (xs : List Rat) : Summary :=
         variance := specVariance xs
         stdDev := if xs.isEmpty then 0 else sqrtFn (specVariance xs) } }
 
-/-! ## Executable square root used by the driver only (not by any theorem's hypothesis) -/
+/-! ## Executable square root used by the drivers
 
-def isqrtLoop : Nat → Nat → Nat → Nat
-  | 0, _, x => x
-  | fuel + 1, n, x =>
-    let y := (x + n / x) / 2
-    if y < x then isqrtLoop fuel n y else x
+The theorems of C17 hold for every `sqrtFn`; this particular one (bit-by-bit integer square root
+of `⌊r·10⁶⁰⌋`, i.e. √r truncated to 30 decimal places) is what the drivers plug in so that
+`std_dev` can be compared with the code's `Decimal::sqrt`. Its error bound is proved in
+`Lemmas/DataSet.lean` (`sqrtApprox_spec`). -/
 
-/-- ⌊√n⌋ by Newton iteration from a power of two above the root. -/
-def isqrt (n : Nat) : Nat :=
-  if n = 0 then 0 else isqrtLoop 1000 n (2 ^ (n.log2 / 2 + 1))
+/-- tries to add `2^k, 2^(k-1), …, 2, 1` to the accumulator `a`, keeping `a² ≤ n`. -/
+def isqrtGo : Nat → Nat → Nat → Nat
+  | 0, n, a => if (a + 1) * (a + 1) ≤ n then a + 1 else a
+  | k + 1, n, a =>
+    let p := 2 ^ (k + 1)
+    isqrtGo k n (if (a + p) * (a + p) ≤ n then a + p else a)
+
+/-- ⌊√n⌋ -/
+def isqrt (n : Nat) : Nat := isqrtGo n.log2 n 0
+
+def sqrtScale : Nat := 10 ^ 30
 
 /-- √r truncated to 30 decimal places (`0` for `r ≤ 0`). -/
 def sqrtApprox (r : Rat) : Rat :=
   if r ≤ 0 then 0 else
-    let scale : Nat := 10 ^ 30
-    let n : Nat := ((r * (scale : Rat) * (scale : Rat)).floor).toNat
-    mkRat (isqrt n) scale
+    let n : Nat := ((r * ((sqrtScale : Rat) * (sqrtScale : Rat))).floor).toNat
+    (isqrt n : Rat) / (sqrtScale : Rat)
 
 end BarterModel.DataSet
